@@ -105,6 +105,16 @@ async def run_case(chk, rng, lines, impl, qa):
                     await a.cmd(b"\x18" + struct.pack("<IH", sid, i) + c, n=10)
                 long_idx[i] = data
                 params[i] = (T_BLOB, False, p[2], p[3])
+        if nparams and rng.random() < 0.15:
+            # long data that is abandoned: sent, then discarded with COM_STMT_RESET; the execution that follows supplies the
+            # value inline, and that inline value is what must be bound
+            j = rng.randrange(nparams)
+            if j not in long_idx:
+                await a.cmd(b"\x18" + struct.pack("<IH", sid, j) + b"stale long data ' \\ ?", n=10)
+                await a.cmd(b"\x1a" + struct.pack("<I", sid), n=20)
+                for i2, d2 in long_idx.items():        # the reset discarded these as well: send them again
+                    await a.cmd(b"\x18" + struct.pack("<IH", sid, i2) + d2, n=10)
+                chk.count("exec:long-data-abandoned-by-reset")
         before = len(s.log)
         payload = com_stmt_execute(sid, params, caps=caps, skip=list(long_idx))
         out = await a.cmd(payload, n=50)
